@@ -220,6 +220,9 @@ def install(rec: Recorder):
         orig = opt.step
 
         def step(*a, **k):
+            if rec.cur is not None and not model.policy.training:
+                rec.prob(f"oracle-{algo}-train-step-outside-training-mode",
+                         "an optimizer step is taken while the policy is in evaluation mode: train() must switch to training mode first (dropout / batch-norm layers would otherwise be evaluated, not trained)")
             if rec.cur is not None and rec.n_opt_steps < rec.max_steps:
                 try:
                     ANALYSE[algo](rec, label, opt)
@@ -793,6 +796,9 @@ def gen_configs(rng, tier):
         dict(algo="ddpg", continuous=True, batch_size=4, gamma=0.9, n_critics=1, default_critics=True, policy_delay=1, target_policy_noise=0.1, target_noise_clip=0.0, total=18, learning_starts=8,
              train_freq=2, gradient_steps=1),
         dict(algo="sac", continuous=True, batch_size=4, gamma=0.9, ent_coef="0.3", n_critics=2, total=18, learning_starts=8, train_freq=3, gradient_steps=-1),
+        # minibatches of exactly 2 samples (8 = 3 + 3 + 2) with advantage normalisation: still normalised (only size 1 is skipped)
+        dict(algo="ppo", continuous=False, n_steps=8, batch_size=3, n_epochs=1, clip_range=0.2, clip_range_vf=None, normalize_advantage=True, ent_coef=0.01, vf_coef=0.5,
+             max_grad_norm=0.5, gamma=0.97, total=16, share=True),
         # separate PARAMETRIC feature extractors for actor and critic (custom Linear extractor; NatureCNN inside MultiInputPolicy)
         dict(algo="ppo", continuous=True, n_steps=8, batch_size=4, n_epochs=2, clip_range=0.2, clip_range_vf=None, normalize_advantage=True, ent_coef=0.01, vf_coef=0.5,
              max_grad_norm=0.5, gamma=0.95, total=16, share=False, custom_extractor=True),
